@@ -53,6 +53,19 @@ CHECKS = {
               "per-axis velocities), ex.derivative (orders 1-6, C in 1..3, output layout, random Nyquist-free trigonometric polynomials and single modes "
               "against closed forms) and Poisson (orders 2 and 4: zero-mean result, operator(u) = -(f - mean f)) for several domain extents."),
         note="TLC, fft conventions (C04), numpy cos for closed forms; tolerance 1e-10 relative"),
+    "C06": dict(
+        category="model_checking", design_ref="4/C06", engine="programs",
+        technique="TLC machine of program shapes jit/vmap/rollout/repeat/parameter-batch over an injective integer stepper (MC_Programs; every lane interleaving; provenance, axis-order, transpose, repeat invariants) + replay of every program with real JAX/equinox transformations, exactly on an integer module and metamorphically on every public stepper class",
+        text=("MC_Programs enumerates every program record {jit inside, jit outside} x {single step, rollout with/without initial state, repeat} x {no "
+              "batch, mapped stepper rolled out (lock-step), rolled-out stepper mapped (independent lanes, all interleavings)} x {shared stepper, one "
+              "stepper per lane built from its own constructor parameters} x n <= 3 x B <= 3 and executes it on the injective integer map a_b u + c_b; "
+              "TLC checks that every table entry depends only on its own lane, that the assembled output equals the closed form in the documented axis "
+              "order, that mapping a rollout is the rollout of the mapped stepper with batch and time exchanged, and that repeat is the last rollout "
+              "state. Every terminal program is rebuilt with eqx.filter_jit, jax.vmap, eqx.filter_vmap, ex.rollout, ex.repeat over an integer equinox "
+              "module (exact equality; this also yields the (lane, time) index map) and, for every public stepper class, compared with the eager "
+              "one-at-a-time loop of the same code; one lane is perturbed and the others must stay bit-identical; every float constructor argument, dt "
+              "and the last non-zero entry of every coefficient tuple is swept under eqx.filter_vmap against eagerly built steppers."),
+        note="TLC, dump parser; the numeric oracle for real steppers is the code's own eager evaluation (metamorphic relation), tolerance 1e-9 x scale; one (D, N) per class; dealiasing_fraction / circle_radius treated as static configuration"),
     "C08": dict(
         category="model_checking", design_ref="4/C08", engine="nonlin",
         technique="TLC invariants ShiftOK/PermOK/VortSwapOK/EmbedOK on the exact sparse-spectrum machine (MC_Nonlin) + metamorphic replay of TLC-enumerated group elements on every public stepper",
@@ -235,6 +248,8 @@ def main():
              "kind_free_text": "TLC exact metric pipeline + spec->code replay"},
             {"name": "ic", "path": "spec/MC_IC.tla harness/checks/c18.py", "serves_properties": ["C18"],
              "kind_free_text": "TLC fact-propagation pipeline + spec->code replay"},
+            {"name": "programs", "path": "spec/MC_Programs.tla harness/checks/c06.py", "serves_properties": ["C06"],
+             "kind_free_text": "TLC program-shape machine + spec->code replay (integer-exact and metamorphic)"},
             {"name": "rollout", "path": "spec/MC_Rollout.tla spec/Trace_Rollout.tla harness/checks/c14.py", "serves_properties": ["C14"],
              "kind_free_text": "TLC state machine + replay + trace validation"},
         ],
